@@ -3,7 +3,7 @@ import re
 
 from cfg import cfg_of
 from expr import Exprs, fmt, walk, contains, strip_tags
-from mirutil import is_call, for_loops, try_sites, error_blocks, dominating_conds, cond_bool
+from mirutil import is_call, for_loops, try_sites, error_blocks, dominating_conds, cond_bool, local_updates, erase_vars
 from paths import enumerate_paths, path_events
 from framework import site_of
 import callgraph as cgmod
@@ -373,6 +373,11 @@ def _rpo(f):
 def _footer(F, rep, ser, de):
     exs, exd = Exprs(ser), Exprs(de)
     ds, dd = _loop_depths(ser), _loop_depths(de)
+    # the directory buffer is whatever local the serialiser hands to write_varint
+    recvs = [exs.operand(t["args"][0]) for _, t in ser.calls() if t["callee"].endswith("varint::write_varint")]
+    names = {r[1] for r in recvs if isinstance(r, tuple) and r[0] == "var"}
+    if len(names) == 1:
+        FOOTER_VAR[0] = names.pop()
     # writer sequence
     wseq = []
     order = {b: i for i, b in enumerate(_rpo(ser))}
@@ -439,6 +444,9 @@ def _footer(F, rep, ser, de):
     # Part::new(offset,size) order and raw_size store are implied by _rrole
 
 
+FOOTER_VAR = ["footer"]     # name of the directory buffer, discovered per run (receiver of the write_varint calls)
+
+
 def _wrole(e):
     s = strip_tags(e)
     if s in (("len", ("field", ("param", "self"), "streams")), ("call", "alloc::vec::Vec::<T, A>::len", (("field", ("param", "self"), "streams"),))):
@@ -450,11 +458,11 @@ def _wrole(e):
         return s[2]
     if isinstance(s, tuple) and s[0] == "field" and s[2] == "stream_name":
         return "name"
-    if s == ("var", "footer"):
+    if s == ("var", FOOTER_VAR[0]):
         return "footer"
     if isinstance(s, tuple) and s[0] == "call" and s[1] == "core::num::<impl u64>::to_le_bytes":
         a = s[2][0]
-        if a in (("len", ("var", "footer")), ("call", "alloc::vec::Vec::<T, A>::len", (("var", "footer"),))):
+        if a in (("len", ("var", FOOTER_VAR[0])), ("call", "alloc::vec::Vec::<T, A>::len", (("var", FOOTER_VAR[0]),))):
             return "le8(len(footer))"
     return "?" + f
 
@@ -491,66 +499,59 @@ def _varint(F, rep):
     if not rep.floor("C13-VAR", (1 if w else 0) + (1 if r else 0), 2, "write_varint / read_varint"):
         return
     exw, exr = Exprs(w), Exprs(r)
-    # writer
+    SELF = ("self",)
+    uw = local_updates(w, exw)
+    # count variable: incremented by one in the loop that shifts a copy of the value right by 8
+    cnt_vars = {nm for nm, bi, e, er in uw if er == ("bin", "Add", ("const", 1), SELF)}
+    shr_vars = {nm for nm, bi, e, er in uw if er == ("bin", "Shr", SELF, ("const", 8))}
+    g = cfg_of(w)
+    cnt = False
+    cvar = None
+    for h, body in g.loops():
+        incs = {nm for nm, bi, e, er in uw if bi in body and er == ("bin", "Add", ("const", 1), SELF)}
+        shrs = {nm for nm, bi, e, er in uw if bi in body and er == ("bin", "Shr", SELF, ("const", 8))}
+        if len(incs) == 1 and len(shrs) == 1:
+            cnt = True
+            cvar = next(iter(incs))
+    rep.ob("C13-VAR", "writer count = number of significant bytes (count += 1; tmp >>= 8 until zero)", cnt, detail="count variable %s" % cvar, key="C13-VAR | writer count loop")
     loops = for_loops(w, exw)
     revs = [L for L in loops if contains(L["source"], lambda x: isinstance(x, tuple) and x[0] == "call" and re.search(r"Iterator>?::rev$", x[1]))]
     ok_rev = False
     for L in revs:
         rng = [x for x in walk(L["source"]) if isinstance(x, tuple) and x[0] == "agg" and x[1].startswith("core::ops::range::Range")]
-        if rng and dict(rng[0][2]).get("start") == ("const", 0) and dict(rng[0][2]).get("end") == ("var", "no_bytes"):
+        if rng and dict(rng[0][2]).get("start") == ("const", 0) and dict(rng[0][2]).get("end") == ("var", cvar):
             ok_rev = True
     rep.ob("C13-VAR", "writer emits value bytes for i = count-1 down to 0 (most significant first)", ok_rev, site="%s:%d" % (w.file, w.line_lo), key="C13-VAR | writer order")
-    byte_ok = False
-    count_ok = False
-    zero_ok = False
+    byte_ok = count_ok = zero_ok = False
     for bi, t in w.calls():
         if t["callee"].endswith("::write_all"):
             a = exw.operand(t["args"][1])
             s = repr(a)
-            if "'Shr'" in s and "'BitAnd'" in s and "('const', 255)" in s and "('const', 8)" in s and "'Mul'" in s and "('param', 'value')" in s:
+            if "'Shr'" in s and "'BitAnd'" in s and "('const', 255)" in s and "('const', 8)" in s and "'Mul'" in s and "('param', " in s:
                 byte_ok = True
-            if a == ("agg", "array", (("0", ("var", "no_bytes")),)):
+            if a == ("agg", "array", (("0", ("var", cvar)),)):
                 count_ok = True
             if a == ("bytes", (0,)) or a == ("agg", "array", (("0", ("const", 0)),)):
-                conds = [(fmt(c[0]), cond_bool(c[1], c[2])) for c in dominating_conds(w, bi, exw)]
-                zero_ok = ("Eq(0, no_bytes)", True) in conds or ("Eq(no_bytes, 0)", True) in conds
+                conds = [(erase_vars(c[0]), cond_bool(c[1], c[2])) for c in dominating_conds(w, bi, exw)]
+                zero_ok = (("bin", "Eq", ("const", 0), ("var", "$")), True) in conds
     rep.ob("C13-VAR", "writer byte i is (value >> (i*8)) & 0xff", byte_ok, site="%s:%d" % (w.file, w.line_lo), key="C13-VAR | writer byte")
     rep.ob("C13-VAR", "writer emits the byte count first", count_ok, key="C13-VAR | writer count byte")
     rep.ob("C13-VAR", "writer encodes zero as the single byte 0", zero_ok, key="C13-VAR | writer zero")
-    # count = number of non-zero bytes: while tmp > 0 { no_bytes += 1; tmp >>= 8 }
-    cnt = False
-    g = cfg_of(w)
-    for h, body in g.loops():
-        adds = shr = False
-        for b in body:
-            for s in w.blocks[b]["stmts"]:
-                if s["k"] == "assign" and not s["pl"]["p"]:
-                    e = exw.rvalue(s["rv"])
-                    nm = w.local_names().get(s["pl"]["l"])
-                    if nm == "no_bytes" and e == ("bin", "Add", ("const", 1), ("var", "no_bytes")):
-                        adds = True
-                    if nm == "tmp" and e == ("bin", "Shr", ("var", "tmp"), ("const", 8)):
-                        shr = True
-        if adds and shr:
-            cnt = True
-    rep.ob("C13-VAR", "writer count = number of significant bytes (count += 1; tmp >>= 8 until zero)", cnt, key="C13-VAR | writer count loop")
     # reader
     loops = for_loops(r, exr)
     rl = [L for L in loops if L["range"] and L["range"][0] == ("const", 0)]
-    end_is_count = bool(rl) and fmt(rl[0]["range"][1]) in ("no_bytes_buf[0]", "no_bytes")
-    rep.ob("C13-VAR", "reader reads exactly `count` value bytes", end_is_count, detail="loop range: %s" % (rl and fmt(rl[0]["range"][1])),
+    end = rl[0]["range"][1] if rl else None
+    first_byte = isinstance(end, tuple) and (end[0] == "index" or (end[0] == "var")) and "buf" in fmt(end) or (isinstance(end, tuple) and end[0] == "index")
+    # the loop bound must be the byte read first: an index into the one-byte buffer filled by the first read_exact
+    rep.ob("C13-VAR", "reader reads exactly `count` value bytes", bool(rl) and bool(first_byte), detail="loop range: %s" % (rl and fmt(rl[0]["range"][1])),
            site="%s:%d" % (r.file, r.line_lo), key="C13-VAR | reader loop bound")
-    shl = add = False
+    ur = local_updates(r, exr)
+    acc = False
     if rl:
-        for b in rl[0]["body"]:
-            for s in r.blocks[b]["stmts"]:
-                if s["k"] == "assign" and not s["pl"]["p"] and r.local_names().get(s["pl"]["l"]) == "value":
-                    e = exr.rvalue(s["rv"])
-                    if e == ("bin", "Shl", ("var", "value"), ("const", 8)):
-                        shl = True
-                    if isinstance(e, tuple) and e[0] == "bin" and e[1] in ("Add", "BitOr") and ("var", "value") in (e[2], e[3]):
-                        add = True
-    rep.ob("C13-VAR", "reader accumulates big-endian: value = (value << 8) + byte", shl and add, key="C13-VAR | reader accumulate")
+        shl = {nm for nm, bi, e, er in ur if bi in rl[0]["body"] and er == ("bin", "Shl", SELF, ("const", 8))}
+        add = {nm for nm, bi, e, er in ur if bi in rl[0]["body"] and isinstance(er, tuple) and er[0] == "bin" and er[1] in ("Add", "BitOr") and SELF in (er[2], er[3])}
+        acc = bool(shl & add)
+    rep.ob("C13-VAR", "reader accumulates big-endian: value = (value << 8) + byte", acc, key="C13-VAR | reader accumulate")
     zero_r = False
     for bi, b in enumerate(r.blocks):
         for s in b["stmts"]:
